@@ -71,7 +71,74 @@ fn process_line(line: &str, long_lived: &swc_core::common::Globals) -> Value {
     pipeline::run_case(&case, long_lived)
 }
 
+// ---- per-case watchdog ---------------------------------------------------------------------
+// CASE_CLOCK holds (cpu ms of the process, wall ms) at the start of the case being processed.
+static CASE_ACTIVE: std::sync::atomic::AtomicBool = std::sync::atomic::AtomicBool::new(false);
+static CASE_CPU0: std::sync::atomic::AtomicU64 = std::sync::atomic::AtomicU64::new(0);
+static CASE_WALL0: std::sync::atomic::AtomicU64 = std::sync::atomic::AtomicU64::new(0);
+static CASE_IDX: std::sync::atomic::AtomicU64 = std::sync::atomic::AtomicU64::new(0);
+
+/// user+system CPU time of this process in ms (from /proc/self/stat; 0 if unavailable)
+fn process_cpu_ms() -> u64 {
+    let s = match std::fs::read_to_string("/proc/self/stat") {
+        Ok(s) => s,
+        Err(_) => return 0,
+    };
+    // fields after the parenthesised command name: state is field 3; utime = 14, stime = 15
+    let rest = match s.rfind(')') {
+        Some(i) => &s[i + 1..],
+        None => return 0,
+    };
+    let f: Vec<&str> = rest.split_whitespace().collect();
+    let ticks = f.get(11).and_then(|x| x.parse::<u64>().ok()).unwrap_or(0) + f.get(12).and_then(|x| x.parse::<u64>().ok()).unwrap_or(0);
+    ticks * 10 // USER_HZ = 100 on Linux
+}
+
+fn wall_ms() -> u64 {
+    std::time::SystemTime::now().duration_since(std::time::UNIX_EPOCH).map(|d| d.as_millis() as u64).unwrap_or(0)
+}
+
+pub fn case_begin(idx: u64) {
+    use std::sync::atomic::Ordering::SeqCst;
+    CASE_IDX.store(idx, SeqCst);
+    CASE_CPU0.store(process_cpu_ms(), SeqCst);
+    CASE_WALL0.store(wall_ms(), SeqCst);
+    CASE_ACTIVE.store(true, SeqCst);
+}
+
+pub fn case_end() {
+    CASE_ACTIVE.store(false, std::sync::atomic::Ordering::SeqCst);
+}
+
+/// A case that burns more than VJX_CASE_CPU_S seconds of CPU (default 20; a case normally takes
+/// milliseconds) ends the process with exit 97; one that merely stays unfinished for 15x that
+/// long in wall time (starved machine) ends it with exit 98, which is never a verdict.
+fn spawn_watchdog() {
+    let limit_s: u64 = std::env::var("VJX_CASE_CPU_S").ok().and_then(|s| s.parse().ok()).unwrap_or(20);
+    std::thread::spawn(move || loop {
+        std::thread::sleep(std::time::Duration::from_millis(250));
+        use std::sync::atomic::Ordering::SeqCst;
+        if !CASE_ACTIVE.load(SeqCst) {
+            continue;
+        }
+        let cpu = process_cpu_ms().saturating_sub(CASE_CPU0.load(SeqCst));
+        let wall = wall_ms().saturating_sub(CASE_WALL0.load(SeqCst));
+        if !CASE_ACTIVE.load(SeqCst) {
+            continue;
+        }
+        if cpu > limit_s * 1000 {
+            eprintln!("VJX-WATCHDOG cpu idx={} cpu_ms={} wall_ms={}", CASE_IDX.load(SeqCst), cpu, wall);
+            std::process::exit(97);
+        }
+        if wall > limit_s * 15_000 {
+            eprintln!("VJX-WATCHDOG wall idx={} cpu_ms={} wall_ms={}", CASE_IDX.load(SeqCst), cpu, wall);
+            std::process::exit(98);
+        }
+    });
+}
+
 fn main() {
+    spawn_watchdog();
     // The pipeline's downstream passes (hygiene, fixer, codegen) recurse over the visitor's
     // output, which is ~7x deeper than the JSX input; run everything on a 128 MB stack so that
     // legitimately deep inputs (nesting bound 512) are inside the domain. Unbounded recursion
@@ -93,7 +160,9 @@ fn real_main() {
     if args.len() >= 2 && args[1] == "--one" {
         let mut s = String::new();
         std::io::stdin().read_to_string(&mut s).unwrap();
+        case_begin(0);
         let rec = process_line(s.trim(), &long_lived);
+        case_end();
         println!("{}", serde_json::to_string(&rec).unwrap());
         return;
     }
@@ -102,9 +171,11 @@ fn real_main() {
         let mut s = String::new();
         std::io::stdin().read_to_string(&mut s).unwrap();
         let case: Case = serde_json::from_str(s.trim()).expect("case json");
+        case_begin(0);
         swc_core::common::GLOBALS.set(&swc_core::common::Globals::new(), || {
             let _ = pipeline::run_pipeline(&case.src, case.syntax.as_deref(), pipeline::Mode::Baseline);
         });
+        case_end();
         println!("baseline ok");
         return;
     }
@@ -134,7 +205,9 @@ fn real_main() {
             continue;
         }
         // progress marker on stderr-free channel: write index to a side file cheaply via the record itself
+        case_begin(i as u64);
         let mut rec = process_line(&line, &long_lived);
+        case_end();
         if let Value::Object(m) = &mut rec {
             m.insert("idx".into(), json!(i));
         }
